@@ -161,7 +161,7 @@ class Ex(StmtMixin, ExprMixin, CallMixin, CompMixin):
       facts.extend(s.facts())
     return facts
 
-  def oblige(self, goal, kind, detail):
+  def oblige(self, goal, kind, detail, aux=False):
     if self.pure_mode:
       return
     self.drain_facts()
@@ -182,6 +182,8 @@ class Ex(StmtMixin, ExprMixin, CallMixin, CompMixin):
         o = Obligation(pname, kind, facts, part, line=self.cur_line, detail=detail)
         o.owner = c.label
         o.canary = (kind == 'canary')
+        # helper clause that pins down more than the property states: failing alone = undecided
+        o.undecided_if_no_witness = aux
         self.obligations.append(o)
     # after checking, the goal may be assumed on this path
     self.pc.append(goal)
@@ -481,7 +483,8 @@ class Ex(StmtMixin, ExprMixin, CallMixin, CompMixin):
       self.env = saved_env
       self.oblige(g, 'raises', 'normal return although %s is required: %s' % (exc, cond))
     for j, e in enumerate(c.ensures):
-      self.oblige(self.spec(e), 'post', 'ensures[%d]: %s' % (j, e))
+      aux = e.startswith('aux:')
+      self.oblige(self.spec(e[4:] if aux else e), 'post', 'ensures[%d]%s: %s' % (j, ' (helper clause)' if aux else '', e), aux=aux)
 
   def at_raise(self, c, r):
     self.cur_line = None
